@@ -23,6 +23,8 @@ import (
 	"fmt"
 	"go/ast"
 	"go/token"
+	"os"
+	"path/filepath"
 	"strconv"
 	"strings"
 )
@@ -268,6 +270,7 @@ func c07IndexUses(o *out, dir, recv, name, base, coqName string) {
 var c07ArgClass = map[string]int{
 	"cert.Signer()": 1, "cert.Chain()": 2, "cert.Certificates": 3, "cert.Leaf": 4, "cert.PgpKey": 5, "cert.PgpKey.PrivateKey": 6,
 	"cert.Leaf.RawSubjectPublicKeyInfo": 7, "cert.Leaf.PublicKey": 8, "cert.PrivateKey": 9,
+	"signer.PrivateKey": 10, "signer": 11,
 }
 
 // site emits, for every call to `callee` (or method call ending in .callee) inside the function, the classes of the
@@ -457,6 +460,9 @@ func init() {
 		o.condOf(funcSpec{dir: c, recv: "Config", name: "GetKey", coqName: "cfg_follow_alias",
 			params: "(has_alias : bool)", retType: "bool", leaves: gk, types: gt}, "keyConf.Alias", 0)
 		o.hasStmt(c, "Config", "GetKey", "keyConf, ok = config.Keys[alias]", "cfg_alias_one_level")
+		// (fix 1867fd2) the section an alias names must not be an alias itself
+		o.condOf(funcSpec{dir: c, recv: "Config", name: "GetKey", coqName: "cfg_alias_chain_refused",
+			params: "(has_alias : bool)", retType: "bool", leaves: gk, types: gt}, "keyConf.Alias", 1)
 		const tc = "token/tokencache"
 		tcl := map[string]string{"cached.key != nil": "has_cached", "cached.expires.After(time.Now())": "fresh",
 			"len(wantKeyID)": "want_len", "bytes.Equal(wantKeyID, haveKeyID)": "ids_equal", "c.expiry": "expiry"}
@@ -472,6 +478,7 @@ func init() {
 		// signinit.InitKey: which configuration the certificates are read from
 		c07SiteInit(o)
 		c07History(o)
+		c07Pgp(o)
 		for _, fn := range [][3]string{{"lib/x509tools", "", "SameKey"}, {cl, "", "LoadTokenCertificates"}, {cl, "", "LoadX509KeyPair"},
 			{cl, "", "parseCertificates"}, {cl, "", "parseCertificatesDer"}, {cl, "Certificate", "Chain"}, {cl, "", "ParsePKCS12"},
 			{p7, "SignatureBuilder", "Sign"}, {xd, "", "Sign"}, {xd, "", "SignEnveloping"}, {xd, "", "finishSignature"},
@@ -1099,5 +1106,528 @@ func c07History(o *out) {
 	o.condOf(funcSpec{dir: si, name: "Init", coqName: "init_needs_pgp", params: "(cert_types : Z)", retType: "bool", leaves: il, types: it}, "if:CertTypePgp")
 	for _, sg := range []string{"apk", "appmanifest", "appx", "cab", "cat", "cosign", "deb", "dmg", "jar", "macho", "msi", "pecoff", "pgp", "ps", "rpm", "vsix", "xap", "xar"} {
 		c07CertTypes(o, "signers/"+sg, "certtypes_"+sg)
+	}
+}
+
+// ============================================================================ OpenPGP: which key packet a signature NAMES and which private key SIGNS
+//
+// Every OpenPGP signature relic emits is made from a *packet.PrivateKey: its PublicKey half gives the issuer key id and
+// fingerprint written into the signature packet, its PrivateKey half computes the value.  Generated here:
+//   * LoadTokenCertificates, PGP branch: the classified statement list of the block, the two halves of the packet.PrivateKey
+//     literal it builds, the guard (load_pgp_mismatch above, with the subkey / identity counts as further leaves);
+//   * inventories: every packet.PrivateKey literal and every assignment to a `.PrivateKey` field in lib/certloader; every use
+//     of the entity in pgptools.ClearSign / DetachClearSign, signdeb.Sign, and of `cert` in the pgp / rpm / deb signers;
+//   * signers/pgp sign: the choice of the signing function as a decision over (clearsign, armor, textmode), the fields of the
+//     packet.Config literal (no SigningKeyId: openpgp selects the key itself);
+//   * the third-party code those sites end in, read from the module cache at the versions pinned in /repo/go.mod
+//     (go-crypto: signingKeyByIdUsage conditions and results, detachSign guards, createSignaturePacket, Signature.Sign,
+//     clearsign dashEscaper.Close; go-rpmutils: makeSignature): conditions translated, shapes as booleans, versions as bytes.
+
+func c07ModVersion(mod string) (string, bool) {
+	blob, err := os.ReadFile(filepath.Join(repo, "go.mod"))
+	if err != nil {
+		return "", false
+	}
+	ver, replaced := "", false
+	for _, ln := range strings.Split(string(blob), "\n") {
+		f := strings.Fields(ln)
+		if len(f) >= 2 && f[0] == "require" {
+			f = f[1:]
+		}
+		if len(f) >= 2 && f[0] == mod && strings.HasPrefix(f[1], "v") && ver == "" {
+			ver = f[1]
+		}
+		if len(f) >= 2 && (f[0] == "replace" && f[1] == mod || f[0] == mod && len(f) >= 3 && f[1] == "=>" || f[0] == mod && len(f) >= 4 && f[2] == "=>") {
+			replaced = true
+		}
+	}
+	return ver, replaced
+}
+
+// c07ModDir: directory of a module package in the module cache, as a path usable with loadPkg ("" when absent)
+func c07ModDir(mod, ver, sub string) string {
+	cache := os.Getenv("GOMODCACHE")
+	if cache == "" {
+		if gp := os.Getenv("GOPATH"); gp != "" {
+			cache = filepath.Join(strings.Split(gp, string(os.PathListSeparator))[0], "pkg", "mod")
+		} else if h, err := os.UserHomeDir(); err == nil {
+			cache = filepath.Join(h, "go", "pkg", "mod")
+		}
+	}
+	var esc strings.Builder
+	for _, r := range mod {
+		if r >= 'A' && r <= 'Z' {
+			esc.WriteByte('!')
+			esc.WriteRune(r + 32)
+		} else {
+			esc.WriteRune(r)
+		}
+	}
+	abs := filepath.Join(cache, esc.String()+"@"+ver, sub)
+	if st, err := os.Stat(abs); err != nil || !st.IsDir() {
+		return ""
+	}
+	absRepo, err := filepath.Abs(repo)
+	if err != nil {
+		return ""
+	}
+	rel, err := filepath.Rel(absRepo, abs)
+	if err != nil {
+		return ""
+	}
+	return rel
+}
+
+func c07BytesDef(o *out, coqName, s, comment string) {
+	o.f("Definition %s : bytes := %s. (* %s *)\n", coqName, bytesLit([]byte(s)), comment)
+}
+
+func c07BytesList(o *out, coqName string, items []string, comment string) {
+	var parts []string
+	for _, it := range items {
+		parts = append(parts, "  "+bytesLit([]byte(it))+" (* "+c07Comment(it)+" *)")
+	}
+	o.f("Definition %s : list bytes := [\n%s\n]. (* %s *)\n", coqName, joinCoqItems(parts), comment)
+}
+
+var c07PubSrc = map[string]int{"*entity.PrimaryKey": 1, "*sub.PublicKey": 2, "*subkey.PublicKey": 2}
+var c07KeySrc = map[string]int{"key": 1}
+
+// c07PrivLiteral: `v := &packet.PrivateKey{PublicKey: P, Encrypted: B, PrivateKey: K}` inside the function
+func c07PrivLiteral(o *out, dir, fn, v, coq string) {
+	p, fd := findFunc(dir, "", fn)
+	if fd == nil {
+		o.brokenDef(coq+"_pub", "function "+fn+" not found")
+		return
+	}
+	var lit *ast.CompositeLit
+	n := 0
+	ast.Inspect(fd.Body, func(nd ast.Node) bool {
+		as, ok := nd.(*ast.AssignStmt)
+		if !ok || len(as.Lhs) != 1 || len(as.Rhs) != 1 || printNode(p.fset, as.Lhs[0]) != v {
+			return true
+		}
+		n++
+		if u, ok := as.Rhs[0].(*ast.UnaryExpr); ok && u.Op == token.AND {
+			if cl, ok := u.X.(*ast.CompositeLit); ok && printNode(p.fset, cl.Type) == "packet.PrivateKey" {
+				lit = cl
+			}
+		}
+		return true
+	})
+	if lit == nil || n != 1 {
+		o.brokenDef(coq+"_pub", fmt.Sprintf("%s: expected exactly one assignment %s := &packet.PrivateKey{...} (found %d assignments)", fn, v, n))
+		return
+	}
+	pub, key, enc, extra := 0, 0, "false", 0
+	txt := map[string]string{}
+	for _, el := range lit.Elts {
+		kv, ok := el.(*ast.KeyValueExpr)
+		if !ok {
+			extra++
+			continue
+		}
+		val := strings.Join(strings.Fields(printNode(p.fset, kv.Value)), " ")
+		k := printNode(p.fset, kv.Key)
+		txt[k] = val
+		switch k {
+		case "PublicKey":
+			pub = c07PubSrc[val]
+			if pub == 0 {
+				pub = 99
+			}
+		case "PrivateKey":
+			key = c07KeySrc[val]
+			if key == 0 {
+				key = 99
+			}
+		case "Encrypted":
+			enc = val
+		default:
+			extra++
+		}
+	}
+	if enc != "true" && enc != "false" {
+		o.brokenDef(coq+"_enc", "Encrypted is not a literal: "+enc)
+		return
+	}
+	o.f("Definition %s_pub : Z := %d. (* %s: %s.PublicKey = %s ; 1 *entity.PrimaryKey  2 the public key of a subkey  0 not set  99 anything else *)\n", coq, pub, fn, v, c07Comment(txt["PublicKey"]))
+	o.f("Definition %s_key : Z := %d. (* %s: %s.PrivateKey = %s ; 1 the token key  0 not set  99 anything else *)\n", coq, key, fn, v, c07Comment(txt["PrivateKey"]))
+	o.f("Definition %s_enc : bool := %s. (* %s: %s.Encrypted *)\n", coq, enc, fn, v)
+	o.f("Definition %s_extra : Z := %d. (* other fields of the literal *)\n", coq, extra)
+}
+
+// c07PgpBlock: the statements of the `if pgpcert != "" { ... }` block of LoadTokenCertificates, classified in order:
+//
+//	1 blob, err := ioutil.ReadFile(pgpcert)   2 if err != nil { return nil, err }   3 keyring, err := parsePGP(blob)
+//	4 if <count condition> { return nil, <error> }   5 entity := keyring[0]   6 priv := &packet.PrivateKey{...}
+//	7 if <condition naming priv / SameKey> { return nil, <error> }   8 entity.PrivateKey = priv   9 cert.PgpKey = entity
+//	99 anything else (a loop, a call that receives the entity, another assignment)
+func c07PgpBlock(o *out) {
+	const d = "lib/certloader"
+	p, fd := findFunc(d, "", "LoadTokenCertificates")
+	if fd == nil {
+		o.brokenDef("load_pgp_block", "LoadTokenCertificates not found")
+		return
+	}
+	var blk *ast.BlockStmt
+	for _, st := range fd.Body.List {
+		if is, ok := st.(*ast.IfStmt); ok && is.Init == nil && is.Else == nil && strings.Contains(printNode(p.fset, is.Cond), "pgpcert") {
+			blk = is.Body
+		}
+	}
+	if blk == nil {
+		o.brokenDef("load_pgp_block", "no top-level `if pgpcert ...` block in LoadTokenCertificates")
+		return
+	}
+	flat := func(n ast.Node) string { return strings.Join(strings.Fields(printNode(p.fset, n)), " ") }
+	returnsErr := func(is *ast.IfStmt) bool {
+		if is.Init != nil || is.Else != nil || len(is.Body.List) != 1 {
+			return false
+		}
+		r, ok := is.Body.List[0].(*ast.ReturnStmt)
+		return ok && len(r.Results) == 2 && flat(r.Results[0]) == "nil" && flat(r.Results[1]) != "nil"
+	}
+	var seq, txt []string
+	for _, st := range blk.List {
+		s := flat(st)
+		cls := 99
+		switch x := st.(type) {
+		case *ast.AssignStmt:
+			switch {
+			case s == "blob, err := ioutil.ReadFile(pgpcert)" || s == "blob, err := os.ReadFile(pgpcert)":
+				cls = 1
+			case s == "keyring, err := parsePGP(blob)":
+				cls = 3
+			case s == "entity := keyring[0]":
+				cls = 5
+			case strings.HasPrefix(s, "priv := &packet.PrivateKey{"):
+				cls = 6
+			case s == "entity.PrivateKey = priv":
+				cls = 8
+			case s == "cert.PgpKey = entity":
+				cls = 9
+			}
+		case *ast.IfStmt:
+			c := flat(x.Cond)
+			switch {
+			case !returnsErr(x):
+			case c == "err != nil" && flat(x.Body.List[0]) == "return nil, err":
+				cls = 2
+			case strings.Contains(c, "len(keyring)") && !strings.Contains(c, "SameKey"):
+				cls = 4
+			case strings.Contains(c, "SameKey"):
+				cls = 7
+			}
+		}
+		seq = append(seq, strconv.Itoa(cls))
+		if len(s) > 70 {
+			s = s[:70] + "..."
+		}
+		txt = append(txt, s)
+	}
+	o.f("Definition load_pgp_block : list Z := [%s].\n(* LoadTokenCertificates, statements of the pgpcert block: %s *)\n", strings.Join(seq, "; "),
+		c07Comment(strings.Join(txt, " | ")))
+}
+
+// c07Comment makes Go text safe inside a Coq comment (comment brackets, and quotes: Coq lexes strings inside comments)
+func c07Comment(s string) string {
+	s = strings.ReplaceAll(strings.ReplaceAll(s, "(*", "( *"), "*)", "* )")
+	return strings.ReplaceAll(s, "\"", "'")
+}
+
+// c07PkgInventory: over all functions of a package (files and declarations in order): every composite literal of type
+// packet.PrivateKey ("lit") and every assignment whose left-hand side ends in .PrivateKey ("set"), as "Func:kind:text"
+func c07PkgInventory(o *out, dir, coqName string) {
+	p := loadPkg(dir)
+	if len(p.files) == 0 {
+		o.brokenDef(coqName, "package "+dir+" has no files")
+		return
+	}
+	var items []string
+	for _, fn := range sortedFileNames(p) {
+		for _, decl := range p.files[fn].Decls {
+			fd, ok := decl.(*ast.FuncDecl)
+			if !ok || fd.Body == nil {
+				continue
+			}
+			ast.Inspect(fd.Body, func(n ast.Node) bool {
+				switch x := n.(type) {
+				case *ast.CompositeLit:
+					if x.Type != nil && printNode(p.fset, x.Type) == "packet.PrivateKey" {
+						items = append(items, fd.Name.Name+":lit")
+					}
+				case *ast.AssignStmt:
+					for _, l := range x.Lhs {
+						if se, ok := l.(*ast.SelectorExpr); ok && se.Sel.Name == "PrivateKey" {
+							items = append(items, fd.Name.Name+":set:"+printNode(p.fset, l))
+						}
+					}
+				}
+				return true
+			})
+		}
+	}
+	c07BytesList(o, coqName, items, dir+": packet.PrivateKey literals and assignments to .PrivateKey fields")
+}
+
+// c07RootUses: every maximal selector chain (or bare use) rooted at identifier `root` inside the function, in source
+// order; the declaration of a parameter is not a use.
+func c07RootUses(o *out, dir, recv, name, root, coqName string) {
+	p, fd := findFunc(dir, recv, name)
+	if fd == nil {
+		o.brokenDef(coqName, "function "+dir+":"+recv+"."+name+" not found")
+		return
+	}
+	var items []string
+	var walk func(n ast.Node) bool
+	walk = func(n ast.Node) bool {
+		switch x := n.(type) {
+		case *ast.SelectorExpr:
+			// root of the chain
+			var e ast.Expr = x
+			for {
+				if se, ok := e.(*ast.SelectorExpr); ok {
+					e = se.X
+					continue
+				}
+				break
+			}
+			if id, ok := e.(*ast.Ident); ok && id.Name == root {
+				items = append(items, printNode(p.fset, x))
+				return false
+			}
+		case *ast.Ident:
+			if x.Name == root {
+				items = append(items, root)
+			}
+		case *ast.KeyValueExpr:
+			// field names of composite literals are not uses
+			ast.Inspect(x.Value, walk)
+			return false
+		}
+		return true
+	}
+	ast.Inspect(fd.Body, walk)
+	c07BytesList(o, coqName, items, fmt.Sprintf("%s:%s.%s uses of %s", dir, recv, name, root))
+}
+
+var c07SfClass = map[string]int{"pgptools.DetachClearSign": 1, "openpgp.ArmoredDetachSignText": 2, "openpgp.ArmoredDetachSign": 3,
+	"openpgp.DetachSignText": 4, "openpgp.DetachSign": 5}
+
+// c07SfChoice: the if/else tree of signers/pgp sign that assigns the signing function `sf`, as a decision function
+func c07SfChoice(o *out) {
+	const d = "signers/pgp"
+	p, fd := findFunc(d, "", "sign")
+	if fd == nil {
+		o.brokenDef("pgp_sf_choice", "signers/pgp sign not found")
+		return
+	}
+	fs := funcSpec{dir: d, name: "sign", leaves: map[string]string{"clearsign": "clearsign", "armor": "armor", "textmode": "textmode"},
+		types: map[string]string{"clearsign": "bool", "armor": "bool", "textmode": "bool"}}
+	t := o.newTr(p, fs)
+	var tree func(st ast.Stmt) string
+	block := func(b *ast.BlockStmt) string {
+		if len(b.List) != 1 {
+			return t.fail("branch of the sf choice has %d statements", len(b.List))
+		}
+		return tree(b.List[0])
+	}
+	tree = func(st ast.Stmt) string {
+		switch x := st.(type) {
+		case *ast.AssignStmt:
+			if len(x.Lhs) == 1 && len(x.Rhs) == 1 && printNode(p.fset, x.Lhs[0]) == "sf" && x.Tok == token.ASSIGN {
+				c, ok := c07SfClass[printNode(p.fset, x.Rhs[0])]
+				if !ok {
+					c = 99
+				}
+				return strconv.Itoa(c)
+			}
+		case *ast.IfStmt:
+			if x.Init == nil && x.Else != nil {
+				var els string
+				switch e := x.Else.(type) {
+				case *ast.BlockStmt:
+					els = block(e)
+				case *ast.IfStmt:
+					els = tree(e)
+				}
+				return "(if " + t.expr(x.Cond) + " then " + block(x.Body) + " else " + els + ")"
+			}
+		case *ast.BlockStmt:
+			return block(x)
+		}
+		return t.fail("unsupported statement in the sf choice: %s", printNode(p.fset, st))
+	}
+	var root *ast.IfStmt
+	nAssign := 0
+	ast.Inspect(fd.Body, func(n ast.Node) bool {
+		if as, ok := n.(*ast.AssignStmt); ok && len(as.Lhs) == 1 && printNode(p.fset, as.Lhs[0]) == "sf" {
+			nAssign++
+		}
+		return true
+	})
+	for _, st := range fd.Body.List {
+		if is, ok := st.(*ast.IfStmt); ok && root == nil && strings.Contains(printNode(p.fset, is.Body), "sf = ") {
+			root = is
+		}
+	}
+	if root == nil {
+		o.brokenDef("pgp_sf_choice", "no top-level if statement assigning sf in signers/pgp sign")
+		return
+	}
+	e := tree(root)
+	if t.err != nil {
+		o.brokenDef("pgp_sf_choice", t.err.Error())
+		return
+	}
+	if got := strings.Count(printNode(p.fset, root), "sf = "); got != nAssign {
+		o.brokenDef("pgp_sf_choice", fmt.Sprintf("sf is assigned %d times, %d of them inside the choice", nAssign, got))
+		return
+	}
+	o.f("Definition pgp_sf_choice (clearsign armor textmode : bool) : Z :=\n  %s.\n(* signers/pgp sign: 1 pgptools.DetachClearSign 2 openpgp.ArmoredDetachSignText 3 openpgp.ArmoredDetachSign 4 openpgp.DetachSignText 5 openpgp.DetachSign 99 other *)\n", e)
+}
+
+// c07LitFields: names of the fields set in the first composite literal of the given type inside the function
+func c07LitFields(o *out, dir, recv, name, typ, coqName string) {
+	p, fd := findFunc(dir, recv, name)
+	if fd == nil {
+		o.brokenDef(coqName, "function "+dir+":"+recv+"."+name+" not found")
+		return
+	}
+	var lit *ast.CompositeLit
+	ast.Inspect(fd.Body, func(n ast.Node) bool {
+		if cl, ok := n.(*ast.CompositeLit); ok && lit == nil && cl.Type != nil && printNode(p.fset, cl.Type) == typ {
+			lit = cl
+		}
+		return lit == nil
+	})
+	if lit == nil {
+		o.brokenDef(coqName, "no "+typ+" literal in "+name)
+		return
+	}
+	var items []string
+	for _, el := range lit.Elts {
+		if kv, ok := el.(*ast.KeyValueExpr); ok {
+			items = append(items, printNode(p.fset, kv.Key)+"="+strings.Join(strings.Fields(printNode(p.fset, kv.Value)), " "))
+		} else {
+			items = append(items, "?")
+		}
+	}
+	c07BytesList(o, coqName, items, fmt.Sprintf("%s:%s.%s fields of the %s literal", dir, recv, name, typ))
+}
+
+func c07Pgp(o *out) {
+	o.f("\n(* ---- OpenPGP: which key packet a signature names, which private key signs ---- *)\n")
+	const cl = "lib/certloader"
+	c07PgpBlock(o)
+	c07PrivLiteral(o, cl, "LoadTokenCertificates", "priv", "load_pgp_priv")
+	c07PkgInventory(o, cl, "certloader_privkey_inventory")
+	o.callOrder(cl, "", "LoadTokenCertificates", "load_pgp_guard_order", []string{"parsePGP", "SameKey"})
+	// signing sites inside relic
+	c07Site(o, "lib/pgptools", "", "ClearSign", "clearsign.Encode", "site_clearsign_key", []int{1})
+	c07Site(o, "lib/pgptools", "", "DetachClearSign", "ClearSign", "site_detachclearsign", []int{1})
+	c07Site(o, "lib/signdeb", "", "Sign", "pgptools.ClearSign", "site_signdeb", []int{1})
+	c07RootUses(o, "lib/pgptools", "", "ClearSign", "signer", "uses_clearsign_signer")
+	c07RootUses(o, "lib/pgptools", "", "DetachClearSign", "signer", "uses_detachclearsign_signer")
+	c07RootUses(o, "lib/signdeb", "", "Sign", "signer", "uses_signdeb_signer")
+	c07RootUses(o, "signers/pgp", "", "sign", "cert", "uses_pgp_cert")
+	c07RootUses(o, "signers/rpm", "", "sign", "cert", "uses_rpm_cert")
+	c07RootUses(o, "signers/deb", "", "sign", "cert", "uses_deb_cert")
+	c07SfChoice(o)
+	o.hasStmt("signers/pgp", "", "sign", `armor := opts.Flags.GetBool("armor")`, "pgp_flag_armor")
+	o.hasStmt("signers/pgp", "", "sign", `clearsign := opts.Flags.GetBool("clearsign")`, "pgp_flag_clearsign")
+	o.hasStmt("signers/pgp", "", "sign", `textmode := opts.Flags.GetBool("textmode")`, "pgp_flag_textmode")
+	o.hasStmt("signers/pgp", "", "sign", `if pgpcompat := opts.Flags.GetString("pgp"); pgpcompat == "mini-clear" { clearsign = true }`, "pgp_compat_mini_clear")
+	c07LitFields(o, "signers/pgp", "", "sign", "packet.Config", "pgp_config_fields")
+	c07LitFields(o, "lib/signdeb", "", "Sign", "packet.Config", "signdeb_config_fields")
+	// ---- third-party code at the pinned versions
+	const gcMod, ruMod = "github.com/ProtonMail/go-crypto", "github.com/sassoftware/go-rpmutils"
+	gcVer, gcRepl := c07ModVersion(gcMod)
+	ruVer, ruRepl := c07ModVersion(ruMod)
+	c07BytesDef(o, "gocrypto_version", gcVer, "go.mod: "+gcMod+" "+gcVer)
+	c07BytesDef(o, "rpmutils_version", ruVer, "go.mod: "+ruMod+" "+ruVer)
+	o.f("Definition pgp_modules_replaced : bool := %v. (* a replace directive for either module in go.mod *)\n", gcRepl || ruRepl)
+	gc := c07ModDir(gcMod, gcVer, "openpgp")
+	gp := c07ModDir(gcMod, gcVer, "openpgp/packet")
+	gcs := c07ModDir(gcMod, gcVer, "openpgp/clearsign")
+	ru := c07ModDir(ruMod, ruVer, "")
+	if gc == "" || gp == "" || gcs == "" || ru == "" {
+		o.brokenDef("gc_subkey_candidate", "module cache has no "+gcMod+"@"+gcVer+" / "+ruMod+"@"+ruVer)
+		return
+	}
+	o.constInt(gp, "KeyFlagCertify", "key_flag_certify")
+	o.constInt(gp, "KeyFlagSign", "key_flag_sign")
+	o.hasStmt(gc, "Entity", "SigningKeyById", "return e.signingKeyByIdUsage(now, id, packet.KeyFlagSign)", "gc_signing_key_flags_sign")
+	kl := map[string]string{
+		"e.PrimaryKey.KeyExpired(i.SelfSignature, now)": "key_expired", "i.SelfSignature == nil": "no_self_sig", "i.SelfSignature.SigExpired(now)": "sig_expired",
+		"e.Revoked(now)": "ent_revoked", "i.Revoked(now)": "id_revoked",
+		"subkey.Sig.FlagsValid": "flags_valid", "subkey.Sig.FlagCertify": "flag_certify", "subkey.Sig.FlagSign": "flag_sign",
+		"subkey.PublicKey.PubKeyAlgo.CanSign()": "can_sign", "subkey.PublicKey.KeyExpired(subkey.Sig, now)": "key_expired",
+		"subkey.Sig.SigExpired(now)": "sig_expired", "subkey.Revoked(now)": "revoked", "maxTime.IsZero()": "max_zero",
+		"subkey.Sig.CreationTime.After(maxTime)": "after_max", "flags": "flags", "id": "id", "subkey.PublicKey.KeyId": "kid",
+		"packet.KeyFlagCertify": "key_flag_certify", "packet.KeyFlagSign": "key_flag_sign",
+		"i.SelfSignature.FlagsValid": "flags_valid", "i.SelfSignature.FlagCertify": "flag_certify", "i.SelfSignature.FlagSign": "flag_sign",
+		"e.PrimaryKey.PubKeyAlgo.CanSign()": "can_sign", "e.PrimaryKey.KeyId": "kid", "candidateSubkey": "candidate",
+	}
+	kt := map[string]string{}
+	for k, v := range kl {
+		switch v {
+		case "flags", "id", "kid", "key_flag_certify", "key_flag_sign", "candidate":
+		default:
+			kt[k] = "bool"
+		}
+	}
+	o.condOf(funcSpec{dir: gc, recv: "Entity", name: "signingKeyByIdUsage", coqName: "gc_entity_unusable",
+		params: "(key_expired no_self_sig sig_expired ent_revoked id_revoked : bool)", retType: "bool", leaves: kl, types: kt}, "if:i.SelfSignature == nil")
+	o.condOf(funcSpec{dir: gc, recv: "Entity", name: "signingKeyByIdUsage", coqName: "gc_subkey_candidate",
+		params: "(flags_valid flag_certify flag_sign can_sign key_expired sig_expired revoked max_zero after_max : bool) (flags id kid : Z)", retType: "bool",
+		leaves: kl, types: kt}, "if:subkey.Sig.FlagsValid")
+	o.condOf(funcSpec{dir: gc, recv: "Entity", name: "signingKeyByIdUsage", coqName: "gc_primary_usable",
+		params: "(flags_valid flag_certify flag_sign can_sign : bool) (flags id kid : Z)", retType: "bool", leaves: kl, types: kt}, "if:i.SelfSignature.FlagsValid")
+	o.condOf(funcSpec{dir: gc, recv: "Entity", name: "signingKeyByIdUsage", coqName: "gc_has_candidate",
+		params: "(candidate : Z)", retType: "bool", leaves: kl, types: kt}, "if:candidateSubkey")
+	o.hasStmt(gc, "Entity", "signingKeyByIdUsage", "candidateSubkey := -1", "gc_candidate_init")
+	o.hasStmt(gc, "Entity", "signingKeyByIdUsage", "return Key{e, subkey.PublicKey, subkey.PrivateKey, subkey.Sig, subkey.Revocations}, true", "gc_returns_subkey_pair")
+	o.hasStmt(gc, "Entity", "signingKeyByIdUsage", "return Key{e, e.PrimaryKey, e.PrivateKey, i.SelfSignature, e.Revocations}, true", "gc_returns_primary_pair")
+	o.hasStmt(gc, "Entity", "signingKeyByIdUsage", "i := e.PrimaryIdentity()", "gc_uses_primary_identity")
+	// detachSign
+	dl := map[string]string{"ok": "found", "signingKey.PrivateKey == nil": "no_priv", "signingKey.PrivateKey.Encrypted": "encrypted"}
+	dt := map[string]string{"ok": "bool", "signingKey.PrivateKey == nil": "bool", "signingKey.PrivateKey.Encrypted": "bool"}
+	o.hasStmt(gc, "", "detachSign", "signingKey, ok := signer.SigningKeyById(config.Now(), config.SigningKey())", "gc_detach_selects_by_config_id")
+	o.condOf(funcSpec{dir: gc, name: "detachSign", coqName: "gc_detach_no_key", params: "(found : bool)", retType: "bool", leaves: dl, types: dt}, "if:ok")
+	o.condOf(funcSpec{dir: gc, name: "detachSign", coqName: "gc_detach_no_priv", params: "(no_priv : bool)", retType: "bool", leaves: dl, types: dt}, "if:signingKey.PrivateKey == nil")
+	o.condOf(funcSpec{dir: gc, name: "detachSign", coqName: "gc_detach_encrypted", params: "(encrypted : bool)", retType: "bool", leaves: dl, types: dt}, "if:signingKey.PrivateKey.Encrypted")
+	o.hasStmt(gc, "", "detachSign", "sig := createSignaturePacket(signingKey.PublicKey, sigType, config)", "gc_detach_packet_from_selected_public")
+	o.hasStmt(gc, "", "detachSign", "err = sig.Sign(h, signingKey.PrivateKey, config)", "gc_detach_signs_with_selected_private")
+	o.callOrder(gc, "", "detachSign", "gc_detach_call_order", []string{"SigningKeyById", "createSignaturePacket", "sig.Sign", "sig.Serialize"})
+	c07LitFields(o, gc, "", "createSignaturePacket", "packet.Signature", "gc_signature_packet_fields")
+	for _, fn := range [][2]string{{"DetachSign", "return detachSign(w, signer, message, packet.SigTypeBinary, config)"},
+		{"DetachSignText", "return detachSign(w, signer, message, packet.SigTypeText, config)"},
+		{"ArmoredDetachSign", "return armoredDetachSign(w, signer, message, packet.SigTypeBinary, config)"},
+		{"ArmoredDetachSignText", "return armoredDetachSign(w, signer, message, packet.SigTypeText, config)"},
+		{"armoredDetachSign", "err = detachSign(out, signer, message, sigType, config)"}} {
+		o.hasStmt(gc, "", fn[0], fn[1], "gc_route_"+fn[0])
+	}
+	// packet.Signature.Sign: the fingerprint always comes from the private-key packet
+	o.hasStmt(gp, "Signature", "Sign", "sig.IssuerFingerprint = priv.PublicKey.Fingerprint", "gc_sign_fpr_from_priv_packet")
+	o.hasStmt(gp, "Signature", "Sign", "sigdata, err := priv.PrivateKey.(crypto.Signer).Sign(config.Random(), digest, sig.Hash)", "gc_sign_rsa_with_priv_packet_key")
+	o.hasStmt(gp, "Signature", "Sign", "sk := priv.PrivateKey.(*ecdsa.PrivateKey)", "gc_sign_ecdsa_with_priv_packet_key")
+	// clearsign: issuer and value both from the packet handed in
+	o.hasStmt(gcs, "", "Encode", "return EncodeMulti(w, []*packet.PrivateKey{privateKey}, config)", "gc_clearsign_encode_one_key")
+	o.hasStmt(gcs, "dashEscaper", "Close", "sig.IssuerKeyId = &k.KeyId", "gc_clearsign_keyid_from_packet")
+	o.hasStmt(gcs, "dashEscaper", "Close", "sig.IssuerFingerprint = k.Fingerprint", "gc_clearsign_fpr_from_packet")
+	o.hasStmt(gcs, "dashEscaper", "Close", "if err = sig.Sign(d.hashers[i], k, d.config); err != nil { return }", "gc_clearsign_signs_with_packet")
+	// go-rpmutils
+	c07LitFields(o, ru, "", "makeSignature", "packet.Signature", "ru_signature_packet_fields")
+	o.hasStmt(ru, "", "makeSignature", "err := sig.Sign(h, key, nil)", "ru_signs_with_packet")
+	o.callOrder(ru, "", "SignRpmStream", "ru_sign_calls", []string{"makeSignature"})
+	o.hasStmt(ru, "", "SignRpmStream", "sigPgp, err := makeSignature(combinedHash, key, opts)", "ru_pgp_sig_with_key")
+	o.hasStmt(ru, "", "SignRpmStream", "sigRsa, err := makeSignature(genHash, key, opts)", "ru_rsa_sig_with_key")
+	for _, fn := range [][3]string{{"lib/pgptools", "", "ClearSign"}, {"lib/pgptools", "", "DetachClearSign"}, {"lib/signdeb", "", "Sign"},
+		{"signers/pgp", "", "sign"}, {"signers/rpm", "", "sign"}, {"signers/deb", "", "sign"}, {cl, "", "parsePGP"},
+		{gc, "Entity", "signingKeyByIdUsage"}, {gc, "Entity", "PrimaryIdentity"}, {gc, "", "shouldPreferIdentity"}, {gc, "", "detachSign"},
+		{gc, "", "createSignaturePacket"}, {gp, "Signature", "Sign"}, {gcs, "dashEscaper", "Close"}, {ru, "", "makeSignature"}, {ru, "", "SignRpmStream"}} {
+		fingerprint(fn[0], fn[1], fn[2])
 	}
 }
